@@ -1766,6 +1766,11 @@ int LZ4_saveDictHC (LZ4_streamHC_t* LZ4_streamHCPtr, char* safeBuffer, int dictS
     if (dictSize > 64 KB) dictSize = 64 KB;
     if (dictSize < 4) dictSize = 0;
     if (dictSize > prefixSize) dictSize = prefixSize;
+    if (dictSize < prefixSize) {
+        /* part of the history is dropped : an attached dictionary no longer sits right before
+         * the retained history, so it cannot be referenced anymore (offsets would be too small) */
+        streamPtr->dictCtx = NULL;
+    }
     if (safeBuffer == NULL) assert(dictSize == 0);
     if (dictSize > 0)
         LZ4_memmove(safeBuffer, streamPtr->end - dictSize, (size_t)dictSize);
